@@ -224,3 +224,7 @@ type FmtError struct {
 
 func (e *FmtError) Error() string { return e.Msg }
 func (e *FmtError) Unwrap() error { return e.Wrapped }
+
+// ClockStrict: under the engine successive time.Now() values are strictly increasing
+// (as a nanosecond clock practically is) instead of merely non-decreasing.
+func ClockStrict() {}
